@@ -24,6 +24,14 @@ def directed_xer(ctx):
             if n not in names: continue
             for d in [data] + [data[:k] for k in range(max(0, len(data) - 12), len(data))]:
                 lines.append((f"@{n} dec xer {d.hex() if d else '-'}", len(d)))
+        # named and numeric character references cut at EVERY offset (the input is an exact-size heap copy: a look-ahead past the
+        # end of a truncated reference is an ASan report), for every string kind that goes through the XER text converter
+        for n, body in (("XUtf", b"a&lt;b&amp;c&gt;d&#65;&#x42;e"), ("XIa5", b"&amp;&lt;&gt;x&amp;"), ("XBmp", b"p&lt;q&amp;r&gt;"),
+                        ("XUni", b"&gt;&#x263A;&lt;"), ("XGt", b"2024&#48;229120000Z")):
+            data = b"<" + n.encode() + b">" + body + b"</" + n.encode() + b">"
+            for k in range(len(data) + 1):
+                d = data[:k]
+                lines.append((f"@{n} dec xer {d.hex() if d else '-'}", len(d)))
         outs, _ = ctx.run_c_parallel(exe, [l for l, _ in lines], timeout=300, env={"VERIF_LINE_TIMEOUT": "1"})
         for (l, size), o in zip(lines, outs):
             ctx.cov["evaluations"] += 1
